@@ -107,6 +107,25 @@ pub fn in_subject<T>(f: impl FnOnce() -> T) -> T {
     f()
 }
 
+/// run a constructor of the code under test: a panic is attributed to it (quiet) and remembered; the heartbeat is
+/// left alone (constructors may legitimately take long)
+pub fn ctor_guard<T>(label: &str, f: impl FnOnce() -> Option<T>) -> Option<T> {
+    let prev = IN_SUBJECT.with(|c| c.replace(true));
+    let r = catch_unwind(AssertUnwindSafe(f));
+    IN_SUBJECT.with(|c| c.set(prev));
+    match r {
+        Ok(v) => v,
+        Err(_) => {
+            let mut g = CTOR_PANICS.lock().unwrap();
+            if !g.iter().any(|x| x.0 == label) {
+                g.push((label.to_string(), last_panic()));
+            }
+            None
+        }
+    }
+}
+pub static CTOR_PANICS: std::sync::Mutex<Vec<(String, String)>> = std::sync::Mutex::new(Vec::new());
+
 /// Install a quiet panic hook that remembers message and location per thread.
 pub fn install_panic_hook() {
     std::panic::set_hook(Box::new(|info| {
